@@ -190,4 +190,4 @@ def run(ctx):
     quick = ctx.tier == "quick"
     for role in ("server", "client"):
         for start in ("handshaken", "upgraded", "handshaken-nocheck"):
-            ctx.explore(("c06", role, start, ctx.tier), time_budget=None if quick else 420)
+            ctx.explore(("c06", role, start, ctx.tier), time_budget=None if quick else 240)
